@@ -79,8 +79,15 @@ class Program(object):
     """blocks: list of (label, items); item = ("ins", text, label or None) | ("data", text, spec)
     spec: list of ("bytes", b) | ("label", name, size_bits)"""
 
-    def __init__(self, arch, blocks):
+    def __init__(self, arch, blocks, falls):
         self.arch, self.blocks = arch, blocks
+        # labels whose block runs into the next label of the text (no terminator, conditional
+        # branch, call or data): the assembler must keep the two blocks contiguous
+        self.falls = falls
+
+    def required_links(self):
+        labels = [l for l, _ in self.blocks]
+        return {a: labels[i + 1] for i, a in enumerate(labels[:-1]) if a in self.falls}
 
     def text(self):
         out = []
@@ -99,6 +106,7 @@ def gen_program(arch, rng):
     nblocks = rng.randint(2, 5 if small else 8)
     labels = ["main"] + ["lbl%d" % i for i in range(1, nblocks)]
     blocks = []
+    falls = set()
     for bi, label in enumerate(labels):
         items = []
         last = (bi == nblocks - 1)
@@ -108,6 +116,7 @@ def gen_program(arch, rng):
             for _ in range(rng.randint(1, 3)):
                 items.append(gen_data(arch, rng, labels))
             blocks.append((label, items))
+            falls.add(label)
             continue
         for _ in range(rng.randint(0 if bi else 1, 3 if small else 4)):
             if arch.labelref and rng.random() < 0.25:
@@ -139,8 +148,10 @@ def gen_program(arch, rng):
             items.append(("ins", rng.choice(arch.delay), None))
         if not items:
             items.append(("ins", rng.choice(arch.plain), None))
+        if kind in (None, "cond", "call"):
+            falls.add(label)
         blocks.append((label, items))
-    return Program(arch, blocks)
+    return Program(arch, blocks, falls)
 
 
 def gen_data(arch, rng, labels):
@@ -311,7 +322,14 @@ def verify(prog, ldb, patches, pins, itv, nxt, fail, count):
             cur += dec.l
             expected_total += dec.l
         ends[label] = cur
-    for a, b in nxt.items():
+    links = dict(nxt)
+    for a, b in prog.required_links().items():
+        if nxt.get(a) != b:
+            fail("parse_txt does not link a block to its fall-through successor",
+                 "block %s runs into %s in the source, the AsmCFG links it to %r" % (a, b, nxt.get(a)))
+            return None
+        links[a] = b
+    for a, b in links.items():
         if a in ends and ends[a] != addr_of[b]:
             fail("fall-through blocks not contiguous",
                  "block %s ends at %#x, its fall-through %s is at %#x" % (a, ends[a], b, addr_of[b]))
